@@ -1,0 +1,96 @@
+//go:build verif
+
+package catalog
+
+// Contracts for package catalog (C16), checked by /verif/govc. Compiled only with -tags=verif.
+// Every file-system mutator call (os.Mkdir, os.OpenFile for writing, os.RemoveAll, os.Remove) carries the obligation
+// underRoot(path). underRoot is established only by: the catalog's representation invariant (a Directory's own path),
+// joining a directory under the root with one safe item (filepath.Join axiom), and the year-file relation of a
+// validated key.
+
+//@ import io @/utils/io
+
+//@ ghost func isDecimal(s str) bool
+//@ axiom #yearFileName: forallstr(a, pattern(cat(a, ".bin")), isDecimal(a) ==> safeItem(cat(a, ".bin")))
+
+//@ func strconv.Itoa
+//@ trusted "stdlib: decimal digits with an optional leading minus sign"
+//@ pure
+//@ marks #decimal: isDecimal(result)
+
+//@ func path/filepath.Join
+//@ trusted "stdlib, as used here: joining a path under the root with one plain directory name stays under the root"
+//@ pure
+//@ ensures #item: (len(elem) == 2 && underRoot(elem[0]) && safeItem(elem[1])) ==> underRoot(result)
+//@ ensures #catfile: (len(elem) == 2 && underRoot(elem[0]) && elem[1] == "category_name") ==> underRoot(result)
+
+//@ func path.Join
+//@ trusted "stdlib, as used here: joining a path under the root with one plain file name stays under the root"
+//@ pure
+//@ ensures #item: (len(elem) == 2 && underRoot(elem[0]) && safeItem(elem[1])) ==> underRoot(result)
+
+//@ func os.Mkdir
+//@ trusted "file-system mutator"
+//@ pure
+//@ requires #underRoot: underRoot(name)
+
+//@ func os.OpenFile
+//@ trusted "file-system mutator when opened with any write/create flag"
+//@ pure
+//@ requires #underRoot: flag != 0 ==> underRoot(name)
+
+//@ func os.RemoveAll
+//@ trusted "file-system mutator"
+//@ pure
+//@ requires #underRoot: underRoot(path)
+
+//@ func os.Remove
+//@ trusted "file-system mutator"
+//@ pure
+//@ requires #underRoot: underRoot(name)
+
+//@ func (*Directory).GetPath
+//@ trusted "representation invariant of the catalog: a Directory is built by NewDirectory from the root or from a real sub-directory of a Directory, so its path is under the root"
+//@ pure
+//@ ensures underRoot(result)
+
+//@ func writeCategoryNameFile
+//@ props C16
+//@ requires #dir: underRoot(dirName)
+
+//@ func newTimeBucketInfoFromTemplate
+//@ props C16
+//@ modifies none // declared frame (assumed): creates and fills a file, writes no catalog memory
+//@ assumepre io.FileSize.tf "the template comes from a validated bucket (C30 preconditions, not part of C16)"
+//@ assumepre io.FileSize.rs "as above"
+//@ assumepre io.FileSize.year "as above"
+//@ requires #path: newTimeBucketInfo != nil ==> underRoot(newTimeBucketInfo.Path)
+
+//@ func (*Directory).AddTimeBucket
+//@ props C16
+//@ requires #pathOfKey: yearFileOf(f.Path, tbk.key)
+// (observation, outside C16: a key with more items than categories makes catkeySplit[i] panic; precondition here)
+//@ requires #schema: catsLen(tbk.key) >= itemsLen(tbk.key)
+//@ loop 0 invariant #idx: 0 <= iter0 && iter0 <= len(datakeySplit)
+//@ loop 0 invariant #dir: underRoot(dirname)
+
+//@ func removeDirFiles
+//@ props C16
+//@ requires #dir: underRoot(td.pathToItemName)
+
+//@ func (*Directory).AddFile
+//@ props C16
+//@ assumes #repinv: underRoot(d.pathToItemName)
+
+//@ func (*Directory).GetSubDirWithItemName
+//@ trusted "catalog lookup; representation invariant: every Directory's path is under the root"
+//@ pure
+//@ ensures result != nil ==> underRoot(result.pathToItemName)
+
+//@ func (*Directory).RemoveTimeBucket
+//@ props C16
+//@ assumes #repinv: d != nil ==> underRoot(d.pathToItemName)
+//@ loop 0 invariant #idx: 0 <= i && i <= len(datakeySplit) && len(tree) == len(datakeySplit)
+//@ loop 0 invariant #found: forall(k, 0, i, tree[k] != nil && underRoot(tree[k].pathToItemName))
+//@ loop 1 invariant #idx: 0 - 1 <= i && i <= end && end == len(datakeySplit) - 1 && len(tree) == len(datakeySplit) && len(deleteMap) == len(datakeySplit)
+//@ loop 1 invariant #found: forall(k, 0, len(tree), tree[k] != nil && underRoot(tree[k].pathToItemName))
